@@ -456,6 +456,32 @@ func (c *Ctx) applyContract(fr *Frame, st *State, reach, name string, pos token.
 		c.oblige("POST", "CALLPRE."+shortKey(con.Key), pos, reach, tv.T, "precondition of "+con.Key+": "+rq.Text)
 		c.assume(reach, tv.T)
 	}
+	// function-typed parameters with a contract: what is passed must honour it
+	for pname, ps := range con.Params {
+		if ps.Assigns != "nothing" {
+			continue
+		}
+		for i, p := range fn.Params {
+			nm := p.Name()
+			if i < len(con.ParamNames) && con.ParamNames[i] != "" && con.ParamNames[i] != "_" {
+				nm = con.ParamNames[i]
+			}
+			if nm != pname || i >= len(args) {
+				continue
+			}
+			goal := "false"
+			why := "a function value of unknown effects is passed for parameter " + pname + " (declared `assigns nothing`)"
+			if args[i].Fn != nil {
+				ms := c.mods.Of(args[i].Fn)
+				if ms != nil && !ms.Top && len(ms.Arrays) == 0 && len(ms.ByParam) == 0 && len(ms.FreeVarStores) == 0 {
+					goal = "true"
+				} else {
+					why = "function " + c.w.keyOfAny(args[i].Fn) + " passed for parameter " + pname + " (declared `assigns nothing`) may write: " + describeMods(ms)
+				}
+			}
+			c.oblige("FRAME", "FRAME.fnarg", pos, reach, goal, why)
+		}
+	}
 	// effects
 	c.callEffects(st, reach, pos, c.contractMods(fn, con), con.Key)
 	res := c.freshResult(st, reach, name, resType)
